@@ -2,6 +2,7 @@ package parser
 
 import (
 	"errors"
+	"strconv"
 	"strings"
 
 	"github.com/alecthomas/participle/v2"
@@ -40,8 +41,30 @@ var DefaultParserOptions = []participle.Option{
 	participle.Lexer(lexer.MustSimple(BiscuitLexerRules)),
 	participle.UseLookahead(1),
 	participle.Elide("Whitespace", "EOL"),
-	participle.Unquote("String"),
+	participle.Map(unquoteString, "String"),
 	participle.Map(decimalInt, "Int"),
+}
+
+// unquoteString reads a string literal the way participle.Unquote does (the escape
+// sequences of Go string literals), except that a backslash which starts no such sequence
+// is kept as it is instead of making the whole text a syntax error: GRAMMAR.md allows any
+// utf8 sequence between the quotes, and its own example of a regular expression,
+// "^abc\s+def$", contains such a backslash.
+func unquoteString(token lexer.Token) (lexer.Token, error) {
+	s := token.Value[1 : len(token.Value)-1]
+	var out strings.Builder
+	for s != "" {
+		value, _, tail, err := strconv.UnquoteChar(s, '"')
+		if err != nil {
+			out.WriteByte(s[0])
+			s = s[1:]
+			continue
+		}
+		s = tail
+		out.WriteRune(value)
+	}
+	token.Value = out.String()
+	return token, nil
 }
 
 // decimalInt removes the leading zeros of an integer literal: integers are base 10
